@@ -55,6 +55,9 @@ pub struct Step {
 #[derive(Clone, Debug, Serialize, Deserialize)]
 pub struct C13Case {
 	pub steps: Vec<Step>,
+	/// notify error kind carried by injected watch / unwatch failures (mockwatch::ERR_KINDS)
+	#[serde(default)]
+	pub err_kind: u8,
 }
 
 const N: usize = 4;
@@ -113,6 +116,7 @@ pub fn run(c: &C13Case) -> Outcome {
 	let world = MockWorld::default();
 	let res: Result<(), (String, String)> = rt.block_on(async {
 		world.install();
+		world.0.lock().unwrap().err_kind = c.err_kind;
 		let config = Arc::new(Config::default());
 		let model = Arc::new(Mutex::new(Model::default()));
 		let (er_s, mut er_r) = mpsc::channel::<RuntimeError>(256);
@@ -311,8 +315,8 @@ fn op() -> impl Strategy<Value = Op> {
 }
 
 fn strategy() -> BoxedStrategy<C13Case> {
-	proptest::collection::vec((op(), proptest::bool::weighted(0.7)).prop_map(|(op, settle)| Step { op, settle }), 1..12)
-		.prop_map(|steps| C13Case { steps })
+	(proptest::collection::vec((op(), proptest::bool::weighted(0.7)).prop_map(|(op, settle)| Step { op, settle }), 1..12), 0u8..8)
+		.prop_map(|(steps, err_kind)| C13Case { steps, err_kind })
 		.boxed()
 }
 
@@ -345,8 +349,11 @@ fn exhaustive(max_len: usize) -> Vec<C13Case> {
 		}
 		for s in &next {
 			for settle in [true, false] {
+				// the error kind of injected failures varies with the sequence (not multiplied in)
+				let err_kind = (s.iter().sum::<usize>() % 8) as u8;
 				out.push(C13Case {
 					steps: s.iter().map(|i| Step { op: alpha[*i].clone(), settle }).collect(),
+					err_kind,
 				});
 			}
 		}
